@@ -22,7 +22,7 @@ EVIDENCE_DIR = os.path.join(VERIF, 'evidence')
 REPLAY_DIR = os.path.join(VERIF, 'replays')
 KNOWN_FILE = os.path.join(VERIF, 'known_findings.json')
 
-HOLDS, VIOLATION, INCONCLUSIVE, HARNESS_ERROR = 'holds', 'violation', 'inconclusive', 'harness_error'
+HOLDS, VIOLATION, INCONCLUSIVE, HARNESS_ERROR, SKIPPED = 'holds', 'violation', 'inconclusive', 'harness_error', 'skipped'
 
 
 def isolate_cache():
@@ -84,10 +84,19 @@ def match_known(record, known):
     """A finding matches if property and check are equal and every key of its `match` dict equals the record's
     signature entry (the signature is a dict of what fails: configuration + input class)."""
     for f in known.get('findings', []):
-        if f.get('property') != record['property'] or f.get('check') != record['check']:
+        checks = f.get('check')
+        checks = checks if isinstance(checks, list) else [checks]
+        if f.get('property') != record['property'] or record['check'] not in checks:
             continue
         sig = record['signature']
-        if all(_jsonable(sig.get(k)) == v for k, v in f.get('match', {}).items()):
+        ok = True
+        for k, v in f.get('match', {}).items():
+            got = _jsonable(sig.get(k))
+            if isinstance(v, list) and not isinstance(got, list):
+                ok = ok and got in v  # one of the listed values
+            else:
+                ok = ok and got == v
+        if ok:
             return f
     return None
 
@@ -141,6 +150,16 @@ def run_check(prop, mod_name, tier, seed, jobs=None, min_concluded=0.9, only=Non
 def finish(prop, mod, tier, seed, results, t0, min_concluded=0.9):
     known = load_known()
     os.makedirs(EVIDENCE_DIR, exist_ok=True)
+    n = len(results)
+    # an exploration may serve two properties (C10 carries the connection-variable part of C07): each check reports
+    # only the violations of its own property
+    for r in results:
+        r['violations'] = [v for v in r['violations'] if v['property'] == prop]
+        if r['status'] == VIOLATION and not r['violations']:
+            r['status'] = HOLDS
+    # instances a tier defers (too large for its budget; the thorough tier runs them) are listed, not counted
+    skipped = [r for r in results if r['status'] == SKIPPED]
+    results = [r for r in results if r['status'] != SKIPPED]
     n = len(results)
     by = {s: [r for r in results if r['status'] == s] for s in (HOLDS, VIOLATION, INCONCLUSIVE, HARNESS_ERROR)}
     new_violations, known_hits = [], {}
@@ -205,6 +224,8 @@ def finish(prop, mod, tier, seed, results, t0, min_concluded=0.9):
         slowest_instances=[dict(label=r['label'], wall_s=r.get('wall_s'), paths=r.get('paths'), notes=r['notes'][:3])
                            for r in sorted(results, key=lambda r: -(r.get('wall_s') or 0))[:8]],
         notes=[dict(label=r['label'], notes=r['notes'][:4]) for r in results if r['notes'] and r['status'] == HOLDS][:20],
+        deferred_by_this_tier=[dict(label=r['label'], reason=(r['notes'][-1] if r['notes'] else '')) for r in skipped][:60],
+        n_deferred=len(skipped),
         known_findings_hit=sorted(known_hits.keys()),
         new_violations=len(replay_paths),
         exhaustive=False,
@@ -220,7 +241,9 @@ def finish(prop, mod, tier, seed, results, t0, min_concluded=0.9):
 
     for ln in lines:
         print(ln)
-    print(f'[{prop}/{tier}] instances={n} hold={len(by[HOLDS])} violated={len(by[VIOLATION])} '
+    n_known_only = len([r for r in by[VIOLATION] if all(match_known(v, known) is not None for v in r['violations'])])
+    print(f'[{prop}/{tier}] instances={n} hold={len(by[HOLDS])} violated={len(by[VIOLATION])-n_known_only} '
+          f'known_findings_only={n_known_only} deferred={len(skipped)} '
           f'inconclusive={len(by[INCONCLUSIVE])} harness_error={len(by[HARNESS_ERROR])} paths={tot("paths")} '
           f'obligations={tot("discharged")}/{tot("obligations")} solver_queries={tot("solver_queries")} '
           f'solver_s={tot("solver_s"):.1f} wall_s={time.time()-t0:.1f}')
